@@ -380,13 +380,39 @@ def excluded_rules(ctx, F, rid):
     cfg = fl.cfg
     rel_i, exc_i = 1, 2
     globs = fl.calls_to('plan::glob_match')
-    contains = [(cb, ct) for cb, ct in fl.calls(lambda c: c.endswith('str>::contains')) if any(o.kind == 'const' and o.key == ord('/') for o in fl.origins(ct['args'][1]))]
+    # "the pattern contains a slash": str::contains('/'), or str::find('/') examined with is_some / is_none
+    c_true, c_false = set(), set()
+    n_slash = 0
+    is_slash = lambda op_: any(o.kind == 'const' and o.key == ord('/') for o in fl.origins(op_))
+    for cb, ct in fl.calls(lambda c: c.endswith('str>::contains')):
+        if is_slash(ct['args'][1]):
+            n_slash += 1
+            c_true |= fl.outcomes(cb).get('true', set())
+            c_false |= fl.outcomes(cb).get('false', set())
+    for cb, ct in fl.calls(lambda c: c.endswith('str>::find') or c.endswith('str>::rfind')):
+        if is_slash(ct['args'][1]):
+            n_slash += 1
+            oc_ = fl.outcomes(cb)
+            c_true |= oc_.get('Some', set())
+            c_false |= oc_.get('None', set())
+            for ib, it in fl.calls(lambda c: c.startswith('std::option::Option::<') and c.split('::')[-1] in ('is_some', 'is_none')):
+                if any(o.kind == 'call' and o.bb == cb for o in fl.origins(it['args'][0])):
+                    some = callee(it).endswith('is_some')
+                    c_true |= fl.outcomes(ib).get('true' if some else 'false', set())
+                    c_false |= fl.outcomes(ib).get('false' if some else 'true', set())
     empties = fl.calls(lambda c: c.endswith('str>::is_empty'))
     trims = [(tb, tt) for tb, tt in fl.calls(lambda c: 'trim_end_matches' in c) if any(o.kind == 'const' and o.key == ord('/') for o in fl.origins(tt['args'][1]))]
-    if len(globs) != 2 or len(contains) != 1 or not empties:
-        ctx.missing(rid, 'is_excluded: two glob_match calls, contains(\'/\'), is_empty, trim_end_matches(\'/\') (found %d/%d/%d/%d)' % (len(globs), len(contains), len(empties), len(trims)))
-    c_true = fl.outcomes(contains[0][0]).get('true', set())
-    c_false = fl.outcomes(contains[0][0]).get('false', set())
+    # the per-component match may live in the predicate closure of components(rel).any(..)
+    comp_closure = None
+    for qb, qt in fl.calls(lambda c: c == 'std::iter::Iterator::any'):
+        if any(o.kind == 'call' and o.key == 'std::path::Path::components' and
+               all(y.kind == 'param' and y.key == rel_i for y in call_arg_origins(fl, o.bb, 0)) for o in fl.origins(qt['args'][0])):
+            for o in fl.origins(qt['args'][1]):
+                cb_ = F.body(o.key) if o.kind == 'agg' else None
+                if cb_ is not None and flow_of(cb_).calls_to('plan::glob_match'):
+                    comp_closure = (qb, qt, cb_)
+    if not (len(globs) == 2 or (len(globs) == 1 and comp_closure is not None)) or n_slash != 1 or not empties:
+        ctx.missing(rid, 'is_excluded: two glob_match calls, contains(\'/\'), is_empty, trim_end_matches(\'/\') (found %d/%d/%d/%d)' % (len(globs), n_slash, len(empties), len(trims)))
     e_false = set()
     for eb, et in empties:
         e_false |= fl.outcomes(eb).get('false', set())
@@ -434,6 +460,40 @@ def excluded_rules(ctx, F, rid):
                       'per-component matching is not over every Normal component for non-empty slash-free patterns (normal=%s, components(rel)=%s)' % (normal, it_ok), term_loc(b, gb))
         else:
             ctx.bad(rid, 'is_excluded:glob-operand', 'glob_match is applied to something else than the whole path or a path component', term_loc(b, gb))
+    if comp_closure is not None and 'component' not in kinds:
+        qb, qt, cb_ = comp_closure
+        kinds.add('component')
+        cfl = flow_of(cb_)
+        gb2, gt2 = cfl.calls_to('plan::glob_match')[0]
+        # Normal components only: inside the closure the glob call is behind the Normal (4) edge of the component's discriminant
+        normal = False
+        for bi in cfl.cfg.reachable():
+            for st in cb_.blocks[bi]['stmts']:
+                rv = st['rv']
+                if rv['k'] == 'discr' and 'Component' in cb_.local_ty(rv['p']['l']):
+                    t = cb_.blocks[bi]['term']
+                    if t['k'] == 'switch':
+                        e = {(bi, tgt, v) for v, tgt in t['targets'] if v == 4}
+                        if e and cfl.cfg.edges_guard(e, gb2):
+                            normal = True
+        # other components make the predicate false; the closure's value is the glob result
+        ro = [o for o in cfl.origins(0) if o.kind != 'comb']
+        val_ok = any(o.kind == 'call' and o.key == 'plan::glob_match' for o in ro) and all(
+            (o.kind == 'call' and o.key == 'plan::glob_match') or (o.kind == 'const' and o.key in (0, False)) for o in ro)
+        # the captured pattern is the trimmed loop pattern
+        pat_ok = False
+        for o in cfl.origins(gt2['args'][0]):
+            if o.kind == 'upvar' and o.key is not None:
+                for blk in b.blocks:
+                    for st in blk['stmts']:
+                        rv = st['rv']
+                        if rv['k'] == 'agg' and rv.get('ak') == 'closure' and norm(rv['def']) == cb_.path and int(o.key) < len(rv['ops']):
+                            po = fl.origins(rv['ops'][int(o.key)])
+                            pat_ok = bool(po) and all(x.kind == 'call' and 'trim_end_matches' in x.key for x in po if x.kind != 'comb')
+        ok = pat_ok and normal and val_ok and cfg.edges_guard(c_false, qb) and cfg.edges_guard(e_false, qb)
+        ctx.check(ok, rid, 'is_excluded:per-component', 'components(rel).any(|c| Normal(c) && glob_match(trimmed pat, c)) only if pat has no \'/\' and is non-empty',
+                  'per-component matching is not over every Normal component for non-empty slash-free patterns (normal=%s, value=%s, pattern=%s)' % (normal, val_ok, pat_ok), term_loc(b, qb))
+        globs = globs + [(qb, qt)]       # for the "true only on a hit" / "hit returns true" rules the any() call stands for the match
     for tb_ in trues:
         g = any(fl.outcomes(gb).get('true') and cfg.edges_guard(fl.outcomes(gb)['true'], tb_) for gb, _ in globs)
         ctx.check(g, rid, 'is_excluded:true-only-on-match', 'returns true only on a glob_match hit', 'is_excluded can return true without a pattern match', loc(b, b.lo))
@@ -470,7 +530,7 @@ def glob_rules(ctx, F, rid, key_prefix='glob_match'):
             if o.kind == 'call' and o.key == 'std::ops::Index::index':
                 base = call_arg_origins(fl, o.bb, 0)
                 for x in base:
-                    if x.kind == 'call' and x.key == 'std::iter::Iterator::collect':
+                    if x.kind == 'call' and x.key in ('std::iter::Iterator::collect', 'std::iter::FromIterator::from_iter'):
                         for y in call_arg_origins(fl, x.bb, 0):
                             if y.kind == 'call' and y.key.endswith('::chars'):
                                 for z in call_arg_origins(fl, y.bb, 0):
@@ -560,7 +620,7 @@ def glob_step_rules(ctx, F, rid, key_prefix='glob_match'):
         PAT, TXT = ('v', 'p'), ('v', 't')
 
         def seq_of(t):
-            if t[0] == 'call' and t[1] == 'std::iter::Iterator::collect' and t[2] and t[2][0][0] == 'call' and t[2][0][1].endswith('::chars'):
+            if t[0] == 'call' and t[1] in ('std::iter::Iterator::collect', 'std::iter::FromIterator::from_iter') and t[2] and t[2][0][0] == 'call' and t[2][0][1].endswith('::chars'):
                 src = t[2][0][2][0]
                 if src == ('v', 1):
                     return PAT
@@ -867,6 +927,11 @@ def listing_rule(ctx, F, rid):
                     mt_nested = True
     strip = [(sb, st) for sb, st in fl.calls(lambda c: c.endswith('::strip_prefix')) if any(o.kind == 'const' and o.key == './' for o in fl.origins(st['args'][1]))]
     dot = [(sb, st) for sb, st in fl.calls(lambda c: c.endswith('::split')) if any(o.kind == 'const' and o.key == ord('.') for o in fl.origins(st['args'][1]))]
+    dot_once = False
+    if not dot:
+        # the same cut written with split_once('.'): the text before the dot is the first half of its payload
+        dot = [(sb, st) for sb, st in fl.calls(lambda c: c.endswith('::split_once')) if any(o.kind == 'const' and o.key == ord('.') for o in fl.origins(st['args'][1]))]
+        dot_once = bool(dot)
 
     def next_rank(op):
         """index (0,1,2) of the splitn next() the operand derives from"""
@@ -890,6 +955,19 @@ def listing_rule(ctx, F, rid):
         for nb2, nt2 in fl.calls_to('std::iter::Iterator::next'):
             if any(o.kind == 'call' and o.bb == dot[0][0] for o in fl.origins(nt2['args'][0])):
                 first_piece = True
+        if dot_once:
+            for pb_ in mt_p:
+                io = [o for o in fl.origins(b.blocks[pb_]['term']['args'][0]) if o.kind != 'comb']
+                d0 = any(o.kind == 'call' and o.bb == dot[0][0] and tuple(o.path)[-1:] == ('0',) for o in io)
+                d1 = any(o.kind == 'call' and o.bb == dot[0][0] and tuple(o.path)[-1:] == ('1',) for o in io)
+                clo = False
+                for o in io:
+                    cb_ = F.body(o.key) if o.kind == 'agg' else None
+                    if cb_ is not None:
+                        ro = [x for x in flow_of(cb_).origins(0) if x.kind != 'comb']
+                        clo = bool(ro) and all(x.kind == 'param' and tuple(x.path)[-1:] == ('0',) for x in ro)
+                if any(o.kind == 'call' and o.bb == dot[0][0] for o in io) and (d0 or clo) and not d1:
+                    first_piece = True
         order_ok = order_ok and first_piece
     ctx.check(order_ok, rid, 'listing:reader-field-order', 'size (u64) | integer part of mtime (i64) | path with ./ stripped',
               'the parser does not read size, whole-second mtime and path in the order the listing writes them', loc(b, b.lo))
